@@ -151,8 +151,14 @@ func runC19(a *A) {
 		})
 		a.Check(okDrain, fname(fn)+"#drain-under-lock", fn.Pos(), "buffered rows are received from the old channel while the write lock is held", "the old channel is not drained under dataChanMux.Lock: producers could enqueue into it during migration")
 		a.Check(okOffer, fname(fn)+"#offer-each-row", fn.Pos(), "every row taken from the old channel is offered to the new one", "a row received from the old channel is not sent to the new channel: it would be lost without being counted")
-		// swap after drain: no receive from old channel reachable after the swap store
-		hit := reachableAfter(swap, func(in ssa.Instruction) bool {
+		// swap after drain: no receive from the old channel reachable after any store to dataChan
+		var hit ssa.Instruction
+		for _, anySt := range storesToField(fn, dc) {
+			if h := drainAfter(anySt, dc); h != nil {
+				hit = h
+			}
+		}
+		_ = func() ssa.Instruction { return reachableAfter(swap, func(in ssa.Instruction) bool {
 			sel, ok := in.(*ssa.Select)
 			if !ok {
 				return false
@@ -165,7 +171,7 @@ func runC19(a *A) {
 				}
 			}
 			return false
-		}, nil)
+		}, nil) }
 		a.Check(hit == nil, fname(fn)+"#swap-after-drain", swap.Pos(), "the swap happens after the drain loop", "rows are still drained after the new channel was installed")
 	})
 	a.Rule("flow/exactly-one-outcome", 3, func() {
@@ -407,4 +413,22 @@ func (a *A) ruleExpansionCeiling() {
 		checked++
 	}
 	a.Check(bad == "", fname(fn)+"#capacity-capped", mk.Pos(), fmt.Sprintf("the new capacity is at most MaxBufferSize on every path (%d orderings)", checked), "expansion can exceed the configured maximum: "+bad)
+}
+
+// drainAfter: a receive from Stream.dataChan reachable after the given store.
+func drainAfter(st *ssa.Store, dc *types.Var) ssa.Instruction {
+	return reachableAfter(st, func(in ssa.Instruction) bool {
+		sel, ok := in.(*ssa.Select)
+		if !ok {
+			return false
+		}
+		for _, s := range sel.States {
+			if s.Dir == types.RecvOnly {
+				if t := TermOf(s.Chan, nil); t.Kind == "field" && t.Field == dc {
+					return true
+				}
+			}
+		}
+		return false
+	}, nil)
 }
